@@ -942,6 +942,35 @@ fn vm_events(args: &Args) -> i32 {
         }
     }
 
+    // ---- (a') the fraction that rounds up to 2^16 (102) next to the largest integer parts
+    if pairs != 0 {
+        for ip in ["16383", "16382", "0", "1365", "226"] {
+            for fr in [".99999237060546875", ".9999923706054687499", ".99999", ".999992"] {
+                for unit in ["pt", "sp", "em", "ex", "in", "pc", "fil", "fill", "filll", "\\dimen2 "] {
+                    let mut s = vec![plain_set(2, 2, "1pt")];
+                    let text = if unit.starts_with("fil") {
+                        s.push(plain_set(3, 1, &format!("0pt plus {ip}{fr}{unit} minus -{ip}{fr}{unit}")));
+                        s.push(the(3, 1));
+                        emit_program(&mut out, &s, 65536, 131072, "carry");
+                        continue;
+                    } else {
+                        format!("{ip}{fr}{unit}")
+                    };
+                    if unit.starts_with('\\') {
+                        let mut rhs = vec![Tok::Ch('=')];
+                        push_str(&mut rhs, &format!("{ip}{fr}"));
+                        rhs.push(Tok::Reg(2, 2));
+                        s.push(Step { op: "set", t: 2, i: 1, idx_space: false, rhs });
+                    } else {
+                        s.push(plain_set(2, 1, &text));
+                    }
+                    s.push(the(2, 1));
+                    emit_program(&mut out, &s, 65536, 131072, "carry");
+                }
+            }
+        }
+    }
+
     // ---- (b) seeded random programs
     for k in 0..n {
         let (em, ex) = font_dims(&mut g.rng);
